@@ -25,11 +25,11 @@ Ids == {0, 4, 9}
 MCInit == vacalls = 0 /\ vam \in ({EmptyM} \cup UNION {NewAll(Tab(k), Gd(k)) : k \in TabIds})
 Spend == vacalls < MaxCalls /\ vacalls' = vacalls + 1
 Keep == UNCHANGED vacalls
-MSetIdFound == \E id \in Ids : Spend /\ SetIdFound(id)
-MSetIdUnknown == \E id \in Ids : Spend /\ SetIdUnknown(id)
-MSetIndexValid == \E i \in 0..7 : Spend /\ SetIndexValid(i)
-MSetIndexInvalid == \E i \in 0..7 : Spend /\ SetIndexInvalid(i)
-MUpdateBegin == \E dt \in Dts : Spend /\ UpdateBegin(dt)
+MSetIdFound == Spend /\ \E id \in Ids : SetIdFound(id)
+MSetIdUnknown == Spend /\ \E id \in Ids : SetIdUnknown(id)
+MSetIndexValid == Spend /\ \E i \in 0..7 : SetIndexValid(i)
+MSetIndexInvalid == Spend /\ \E i \in 0..7 : SetIndexInvalid(i)
+MUpdateBegin == Spend /\ \E dt \in Dts : UpdateBegin(dt)
 MStepGlobals == StepGlobals /\ Keep
 MStepSelectVariation == StepSelectVariation /\ Keep
 MStepSelectRepeat == StepSelectRepeat /\ Keep
